@@ -128,6 +128,7 @@ def gen_case(r, index, tier):
             if t == "grid" and r.chance(0.6):
                 o["centers"] = True
                 o["die"] = r.choice(["8x6", "10x10", "2.5x7", "0.3x0.2", "1000x400"])
+                o["die_file"] = r.chance(0.4)
                 if r.chance(0.6):
                     o["noise"] = r.choice([None, 0.1, 0.0, 0.5])   # None = flag without value (const 0.1)
                     if r.chance(0.6):
@@ -634,7 +635,13 @@ def _op_netgen(ctx, o):
     args = ["-o", path, "--type", t, "--size"] + [str(s) for s in size]
     twin = None
     if o.get("centers"):
-        args += ["--add-centers", "--die", o["die"]]
+        die_arg = o["die"]
+        if o.get("die_file"):
+            # the die comes from a file an earlier stage left on the (simulated) disk
+            W_, H_ = [float(x) for x in o["die"].split("x")]
+            die_arg = ctx.path("die_for_netgen")
+            ctx.fs.put(die_arg, _yaml_text({"width": W_, "height": H_}))
+        args += ["--add-centers", "--die", die_arg]
         if "noise" in o:
             args += ["--add-noise"] + ([] if o["noise"] is None else [str(o["noise"])])
         if "nseed" in o:
@@ -1097,7 +1104,7 @@ def _op_legal(ctx, o):
         return "skipped(outside the legaliser's domain)"
     key = {"producer": "legalfloor.Model.get_netlist"}
     if ctx.scratch is None:
-        ctx.scratch = tempfile.mkdtemp(prefix="frame-verif-", dir="/dev/shm" if os.path.isdir("/dev/shm") else None)
+        ctx.scratch = tempfile.mkdtemp(prefix="frame-verif-", dir=os.environ.get("VERIF_SCRATCH") or ("/dev/shm" if os.path.isdir("/dev/shm") else None))
         tempfile.tempdir = ctx.scratch
     before = canon(sem.netlist_sem(net, roles=True, order_rects=True))
     try:
